@@ -26,6 +26,10 @@ func WirePacket(r *rand.Rand, maxOpts int) ([]byte, *ref4.P4) {
 	default:
 		e.HLen = 6
 	}
+	if r.IntN(6) == 0 { // the (hardware type, address length) pairs that exist, incl. the ones longer than chaddr
+		pr := [][2]byte{{1, 6}, {6, 6}, {27, 8}, {32, 20}, {32, 8}, {24, 8}, {15, 2}, {20, 1}, {1, 20}, {32, 16}, {32, 17}}[r.IntN(11)]
+		e.HType, e.HLen = pr[0], pr[1]
+	}
 	e.Hops = byte(r.UintN(256))
 	b[0], b[1], b[2], b[3] = e.Op, e.HType, e.HLen, e.Hops
 	for i := 4; i < 44; i++ {
@@ -90,6 +94,9 @@ func WirePacket(r *rand.Rand, maxOpts int) ([]byte, *ref4.P4) {
 		return b, e // empty options area
 	}
 	n := r.IntN(maxOpts + 1)
+	if maxOpts >= 4 && r.IntN(12) == 0 {
+		n = 20 + r.IntN(50) // a long options area: dozens of options, hence dozens of instances and codes that come back late
+	}
 	type inst struct {
 		c byte
 		v []byte
@@ -108,6 +115,10 @@ func WirePacket(r *rand.Rand, maxOpts int) ([]byte, *ref4.P4) {
 		l := OptLen(r)
 		if l > 700 {
 			l %= 700
+		}
+		if n > 12 { // many options: short values, codes from a small pool so that instances of one code are far apart
+			l = r.IntN(6)
+			code = byte(60 + r.UintN(30))
 		}
 		v := Bytes(r, l)
 		// split into instances
